@@ -113,6 +113,11 @@ func genA(r *sim.Rng, tier string) any {
 	default:
 		p.Clock = []int64{p.LapseSec + 1, p.LapseSec + 2}
 	}
+	if p.DevWindow == "valid" && r.Bool(0.15) {
+		// seconds to minutes around the moment the root expires (the device certificate is valid throughout)
+		end := int64(20 * 365 * 86400)
+		p.Clock = []int64{end - int64(r.Range(1, 500)), end + 1, end + int64(r.Range(2, 500))}
+	}
 	if p.DevWindow == "starting" {
 		// around the first valid instant: minutes before, one second before, from then on
 		p.Clock = []int64{max(p.LapseSec-int64(r.Range(2, 400)), 0), p.LapseSec - 1, p.LapseSec, p.LapseSec + 1}
